@@ -99,20 +99,32 @@ void t4_table(void) {
     VEND();
 }
 
-/* unsorted lists (Chinese): one 3-byte UTF-8 character per word, all distinct */
-static bool seen[0x10000];
+/* unsorted lists (Chinese): all words distinct.  PERM is a sorting permutation
+ * computed by the driver (auxiliary, untrusted): if the words taken in PERM
+ * order are strictly increasing, PERM is injective, hence a bijection on the
+ * 2048 indices, hence no two entries of the list are equal.                   */
+#define PERM CAT(PERM_, LID)
 VF_DECL2(t4_distinct, in_t4_table)
 void t4_distinct(void) {
     struct in_t4_table IN = VF_IN(t4_distinct);
     (void)IN;
+#ifdef UNSORTED
     const polyseed_lang* L = &REAL;
-    for (int j = 0; j < POLYSEED_LANG_SIZE; ++j) {
-        const unsigned char* w = (const unsigned char*)L->words[j];
-        VASSERT((w[0] & 0xF0) == 0xE0 && (w[1] & 0xC0) == 0x80 && (w[2] & 0xC0) == 0x80 && w[3] == 0, "T4 word is one three-byte UTF-8 character");
-        unsigned cp = ((w[0] & 0x0Fu) << 12) | ((w[1] & 0x3Fu) << 6) | (w[2] & 0x3Fu);
-        VASSERT(!seen[cp], "T4 all words of the list are distinct");
-        seen[cp] = true;
+    /* strict monotonicity under the driver's order */
+    unsigned long p2 = 0;
+    for (int k = 0; k < POLYSEED_LANG_SIZE; ++k) {
+        VASSERT(PERM[k] < POLYSEED_LANG_SIZE, "T4 permutation entry in range");
+        const unsigned char* w = (const unsigned char*)L->words[PERM[k]];
+        unsigned long v = 0;
+        unsigned len = 0;
+        for (; w[len] != 0 && len < 8; ++len) v = (v << 8) | (unsigned long)w[len];
+        VASSERT(w[len] == 0 && len >= 1, "T4 word length between 1 and 8 bytes");
+        /* left-align so that byte-wise lexicographic order = numeric order */
+        v <<= 8 * (8 - len);
+        if (k > 0) VASSERT(p2 < v, "T4 words in permutation order are strictly increasing (so the list has no duplicates)");
+        p2 = v;
     }
+#endif
     VEND();
 }
 
